@@ -795,6 +795,13 @@ class Frame:
                 sub = v.v['fields'][keys[e[1]]]
                 v = json_to_abs(sub)
                 continue
+            ph_ = getattr(self.interp, 'proj_hook', None)
+            if ph_ is not None and e[0] == 'f':
+                # a rule may give meaning to the coefficients of a value it tracks as a whole
+                pv_ = ph_(v, e[1])
+                if pv_ is not None:
+                    v = pv_
+                    continue
             return TOP
         return v
 
@@ -1984,6 +1991,8 @@ class Interp:
         if self.propagate_hooks:
             sub.binop_hook = self.binop_hook
             sub.propagate_hooks = True
+        if getattr(self, 'proj_hook', None) is not None:
+            sub.proj_hook = self.proj_hook
         return sub
 
     @staticmethod
